@@ -4,18 +4,15 @@
   the `while True` matching loop of both simulators, the MARKET-order queue).
   PROPERTY THEOREMS ONLY (helper lemmas: Proofs/Lemmas/Sort.lean, Proofs/Lemmas/Match.lean).
 -/
-import Proofs.Lemmas.Match
+import Proofs.Lemmas.Compose
 
 namespace C02
-open Jesse Jesse.Eng Jesse.Gen MatchLemmas
+open Jesse Jesse.Eng Jesse.Gen MatchLemmas ComposeLemmas
 
 variable {M : Type} [Inhabited M] (u : UserStrategy M)
 
-/-- the candidate selection of the normal simulator (`_get_executing_orders` + `_sort_execution_orders`
-    when more than one) -/
-def sel (sym : Nat) : Engine M → Candle → List Nat := fun e c =>
-  let os := executingOrders e sym c
-  if os.length > 1 then sortExecutionOrders e os [c] else os
+/- the candidate selection of the normal simulator (`_get_executing_orders` + `_sort_execution_orders` when more
+   than one) is `ComposeLemmas.sel` -/
 
 /-- NO MISSED FILL, normal simulator: when the matching loop of a minute returns without an error,
     NO active order of the symbol has its price inside what remains of the minute's candle — every
@@ -41,6 +38,27 @@ theorem minute_no_resting_hit (fuel : Nat) (e : Engine M) (sym : Nat) (real : Ca
   rcases h with ⟨h1, h2, h3⟩ | h
   · rw [h1, h2]; rw [h1, h2] at h3; exact key _ _ h3
   · exact key _ _ h
+
+/-- NO ORDER RESTING SINCE BEFORE THE MINUTE IS LEFT BEHIND (normal simulator, every strategy): when the matching
+    loop of a minute with a valid candle `real` returns without an error, every order that existed when the
+    minute started and is still active (and registered for the symbol) has its price OUTSIDE the minute's
+    range — whatever the hooks fired by the fills did in between (submit, cancel, replace, modify).
+    Composition of `minute_no_resting_hit`, `sorted_head_first_on_path`, the validity of the split parts (C08) and
+    the frame facts (an existing order keeps its price, never becomes active again, never re-enters the registry). -/
+theorem resting_order_never_left_in_range (fuel : Nat) (e : Engine M) (sym : Nat) (real : Candle) (hv : real.Valid) :
+    let r := matchLoop u fuel e sym real (sel sym e real) (sel sym) false
+    r.1.err = none →
+      ∀ id, id < e.w.orders.length → (orderOf r.1 id).status = .active → id ∈ Acc.getD r.1.w.active sym →
+        ¬ candleIncludesPrice real (orderOf e id).price := by
+  intro r herr id hid hact hreg hreal
+  obtain ⟨hext, hkeep⟩ := loop_keeps u e sym real fuel e real hv (FrameLemmas.EExt.refl e) (fun _ _ _ _ h => h) herr
+  have hempty := minute_no_resting_hit u fuel e sym real herr
+  have hcur := hkeep id hid hact hreg hreal
+  have hp : (orderOf r.1 id).price = (orderOf e id).price := price_of_ext hext id hid
+  have : id ∈ executingOrders r.1 sym r.2 :=
+    (mem_executingOrders r.1 sym r.2 id).mpr ⟨hreg, hact, by rw [hp]; exact hcur⟩
+  rw [hempty] at this
+  cases this
 
 /-- FIRST ON THE PATH: with several candidates inside a (valid) candle, the order the sort puts first is
     the one the O-L-H-C / O-H-L-C price path reaches first: after the candle is split at its price, the
@@ -99,7 +117,7 @@ theorem market_queue_drained (fuel : Nat) (e : Engine M) (h : (executePendingMar
 end C02
 
 namespace C02
-open Jesse Jesse.Eng Jesse.Gen Jesse.Acc
+open Jesse Jesse.Eng Jesse.Gen Jesse.Acc ComposeLemmas
 
 /-! ### non-vacuity: a concrete minute with two resting buys on both sides of the open -/
 
